@@ -10,6 +10,9 @@ batches were written. No new generated code: every handler calls functions of `G
   one — an obligation of the regenerated trait-impl table) is then computed from further translated `next` calls;
 * `C09.cnt` / `C09.res` (every field but the f64 bits: `cardinality` is not translated), `C11.op/oprand/wide/widerand`,
   `C14.wsm/deep`, `C15.big`, `C16.limit/exactlyB/uptoB`, `C19.rng/names`, `C20.budget`.
+* `C12.wtext/wbytes` with the field `rt` (the sink of a successful call read back by the translated plain reader) and
+  `C12.rtext/rbytes` with the field `libform` (the harness's `bdd_exact` + own-form test through the translated
+  `from_nodes` / `read_as_string` / `to_bytes` / `Display`); `x:`+hex text fields are decoded (`textFieldDecode`).
 Everything else goes to `B.Drive.Algo4.handle`.
 -/
 namespace B.Drive.Algo4Ext
@@ -640,8 +643,93 @@ def budgetScript (lens : List Nat) (budget : Nat) : List Gen.Rust.IoEv := Id.run
       return sc ++ (if left > 0 then [.give left] else []) ++ [.fail]
   return sc ++ [.fail]
 
+/-! ### C12: the fields added by the predicate audit (`rt` of the writer lines, `libform` of the reader lines, `x:` text fields) -/
+
+/-- a text field of the harness (`text_field` in harness/src/serial_io.rs): verbatim, or `x:` + hex of its UTF-8 bytes -/
+def textFieldDecode (f : String) : String :=
+  if f.startsWith "x:" then
+    (match Gen.Rust.stringFromUtf8 (unhexNats (String.ofList (f.toList.drop 2))) with | .ok s => s | .error _ => f)
+  else f
+
+/-- `bdd_exact(parse_triples(t))` of the harness through the translated constructors: `from_nodes`, when that refuses the
+    translated text reader, and the result must be the given nodes -/
+def exact12? (t : String) : Option Arr :=
+  match parseArrE? t with
+  | none => none
+  | some A =>
+    let b : Option Arr := match Bdd_from_nodes A with
+      | .ok (.ok b) => some b
+      | .ok (.error _) => (match Bdd_read_as_string (Gen.Rust.Reader.ofSlice (Gen.Rust.utf8Bytes t)) with
+          | .ok (.ok b, _) => some b
+          | _ => none)
+      | _ => none
+    match b with
+    | some b => if b == A then some b else none
+    | none => none
+
+def stripWs12 (s : String) : List Char := s.toList.filter fun c => !Gen.Rust.charIsWhitespace c
+
+/-- `libform`: is the data the library's own (translated) form of `orig` — bytes exactly, text modulo whitespace -/
+def libform12 (isText : Bool) (orig : String) (bytes : Array Nat) : String :=
+  if orig == "~" then "-" else
+  match exact12? orig with
+  | none => "0"
+  | some O =>
+    if isText then
+      (match Gen.Rust.stringFromUtf8 bytes, Bdd_fmt O "" with
+       | .ok d, .ok (_, t) => if stripWs12 d == stripWs12 t then "1" else "0"
+       | _, _ => "0")
+    else (match Bdd_to_bytes O with | .ok bs => if bs == bytes then "1" else "0" | _ => "0")
+
+/-- `rt`: the sink of a successful writer call read back with the translated plain reader -/
+def rt12 (isText : Bool) (A : Arr) (sink : Array Nat) : String :=
+  if isText then
+    (match Bdd_read_as_string (Gen.Rust.Reader.ofSlice sink) with
+     | .ok (.ok A', _) => if A' == A then "1" else "0"
+     | .ok (.error _, _) => "err"
+     | .err _ => "err"
+     | .panic _ => "panic")
+  else
+    (match Bdd_read_as_bytes (fuelBytes sink.size) (Gen.Rust.Reader.ofSlice sink) with
+     | .ok (.ok A', _) => if A' == A then "1" else "0"
+     | .ok (.error _, _) => "err"
+     | .err _ => "err"
+     | .panic _ => "panic")
+
 def handle (key : String) (ins obs : List String) : Verdict :=
   match key, ins, obs with
+  -- ------------------------------------------------------------------ C12: writer lines with `rt`, reader lines with `libform`
+  | "C12.wtext", [b, sc], [kind, out, consumed, _flushes, rt] =>
+    match parseArrE? b, parseIoScript? sc with
+    | some A, some script =>
+      let g := match Bdd_write_as_string A { script := script } with
+        | .ok (r, w) => (match r with
+          | .ok _ => s!"ok {hexOfNats w.out} {w.sp} {rt12 true A w.out}"
+          | .error _ => s!"err {hexOfNats w.out} {w.sp} -")
+        | _ => "panic"
+      mk g s!"{kind} {out} {consumed} {rt}" none ["write_as_string", "read_as_string(rt)"]
+    | _, _ => Verdict.bad "args"
+  | "C12.wbytes", [b, sc], [kind, out, consumed, _flushes, rt] =>
+    match parseArrE? b, parseIoScript? sc with
+    | some A, some script =>
+      let g := match Bdd_write_as_bytes A { script := script } with
+        | .ok (r, w) => (match r with
+          | .ok _ => s!"ok {hexOfNats w.out} {w.sp} {rt12 false A w.out}"
+          | .error _ => s!"err {hexOfNats w.out} {w.sp} -")
+        | _ => "panic"
+      mk g s!"{kind} {out} {consumed} {rt}" none ["write_as_bytes", "read_as_bytes(rt)"]
+    | _, _ => Verdict.bad "args"
+  | "C12.rtext", [orig, data, sc], [kind, res, consumed, wants, libform] =>
+    let v := Algo4.handle key [orig, data, sc] [kind, res, consumed, wants]
+    let g := libform12 true orig (unhexNats data)
+    { v with agree := v.agree && g == libform, model := v.model ++ " " ++ g, tags := v.tags ++ ["libform"] }
+  | "C12.rbytes", [orig, data, sc], [kind, res, consumed, wants, libform] =>
+    let v := Algo4.handle key [orig, data, sc] [kind, res, consumed, wants]
+    let g := libform12 false orig (unhexNats data)
+    { v with agree := v.agree && g == libform, model := v.model ++ " " ++ g, tags := v.tags ++ ["libform"] }
+  | "C12.mem", [b], text :: rest =>
+    -- the text field is `x:`+hex when the library's text is not printable ASCII without blanks
+    Algo4.handle key [b] (textFieldDecode text :: rest)
   -- ------------------------------------------------------------------ C03: aliasing / wide lists
   | "C03.exqf", [_, table, _, l, r, vs1, vs2, _form], [r1, r2] =>
     let k := key
